@@ -17,13 +17,15 @@ pub const SCHEMA_SRC: &str = r#"
 entity Group in [Group];
 entity User in [Group] = { level: Long, active: Bool, manager?: User, friends: Set<User>, home?: Folder, profile: { dept: String, boss?: User, ip: ipaddr } };
 entity Folder in [Folder] = { admin?: User, depth: Long };
-entity Doc in [Folder] = { owner: User, readers: Set<User>, parent?: Doc, public: Bool, team?: Group, score: decimal, meta?: { reviewers: Set<User>, lead?: User } } tags String;
+entity Doc in [Folder] = { owner: User, readers: Set<User>, parent?: Doc, public: Bool, team?: Group, score: decimal, meta?: { reviewers: Set<User>, lead?: User }, auditor?: A::Acct } tags String;
+namespace A { entity Acct; }
+namespace B { entity Acct; }
 action anyop;
 action readonly in [anyop];
-action view in [readonly] appliesTo { principal: [User], resource: [Doc], context: { via?: User, n: Long, docs?: Set<Doc> } };
-action edit in [anyop] appliesTo { principal: [User], resource: [Doc], context: { via?: User, n: Long, docs?: Set<Doc> } };
-action browse in [readonly] appliesTo { principal: [User], resource: [Folder], context: { via?: User, n: Long, docs?: Set<Doc> } };
-action peek in [readonly] appliesTo { principal: [User], resource: [Doc, Folder], context: { via?: User, n: Long, docs?: Set<Doc> } };
+action view in [readonly] appliesTo { principal: [User], resource: [Doc], context: { via?: User, n: Long, docs?: Set<Doc>, ext?: B::Acct } };
+action edit in [anyop] appliesTo { principal: [User], resource: [Doc], context: { via?: User, n: Long, docs?: Set<Doc>, ext?: B::Acct } };
+action browse in [readonly] appliesTo { principal: [User], resource: [Folder], context: { via?: User, n: Long, docs?: Set<Doc>, ext?: B::Acct } };
+action peek in [readonly] appliesTo { principal: [User], resource: [Doc, Folder], context: { via?: User, n: Long, docs?: Set<Doc>, ext?: B::Acct } };
 "#;
 
 /// Shapes for the action that applies to two resource types (the policy is specialised per
@@ -129,6 +131,14 @@ pub const SHAPES: &[&str] = &[
     r#"forbid(principal, action in [Action::"view", Action::"edit"], resource) when { resource.owner.profile.ip.isLoopback() };"#,
     r#"permit(principal, action in [Action::"view", Action::"edit"], resource) when { resource has meta && resource.meta has lead && resource.meta.lead.profile has boss && resource.meta.lead.profile.boss.profile.dept == principal.profile.dept };"#,
     r#"forbid(principal, action in [Action::"view", Action::"edit"], resource) when { resource.owner.profile has boss && resource.owner.profile.boss.friends.contains(principal) };"#,
+    // a type test on something that has to be loaded first; entity types that share a base name
+    r#"permit(principal, action in [Action::"view", Action::"edit"], resource) when { resource.owner is User };"#,
+    r#"forbid(principal, action, resource) when { context has via && context.via has manager && !(context.via.manager is User) };"#,
+    r#"permit(principal, action in [Action::"view", Action::"edit"], resource) when { (if principal.level > 3 then principal else resource.owner) is User };"#,
+    r#"forbid(principal, action, resource) when { context has ext && context.ext is A::Acct };"#,
+    r#"permit(principal, action in [Action::"view", Action::"edit"], resource) when { resource has auditor && resource.auditor is A::Acct && !(resource.auditor is B::Acct) };"#,
+    r#"forbid(principal, action in [Action::"view", Action::"edit"], resource) when { resource has auditor && resource.auditor is B::Acct };"#,
+    r#"permit(principal, action, resource) when { context has ext && context.ext is B::Acct };"#,
 ];
 
 /// shapes from this index on are deep attribute chains; the generator favours them
@@ -678,6 +688,9 @@ pub fn gen_store_ids(rng: &mut Rng) -> (Vec<Value>, StoreIds) {
         }
         attrs.insert("readers".into(), Value::Array(rd));
         attrs.insert("public".into(), json!(rng.pct(50)));
+        if rng.pct(35) {
+            attrs.insert("auditor".into(), uid_json("A::Acct", *rng.pick(&["x0", "x1"])));
+        }
         attrs.insert("score".into(), json!({"__extn": {"fn": "decimal", "arg": *rng.pick(&["0.5", "1.5", "2.25", "-3.0"])}}));
         if rng.pct(55) {
             let mut meta = serde_json::Map::new();
@@ -708,6 +721,9 @@ pub fn gen_store_ids(rng: &mut Rng) -> (Vec<Value>, StoreIds) {
             e["tags"] = json!({"k": if rng.pct(50) { "v" } else { "w" }});
         }
         ents.push(e);
+    }
+    if rng.pct(50) {
+        ents.push(json!({"uid": {"type": "A::Acct", "id": "x0"}, "attrs": {}, "parents": []}));
     }
     rng.shuffle(&mut ents);
     (ents, StoreIds { users, groups, docs, folders })
@@ -782,6 +798,9 @@ fn gen_case(seed: u64) -> Case {
     ctx.insert("n".into(), json!(rng.below(10) as i64));
     if rng.pct(50) {
         ctx.insert("via".into(), uid_json("User", pk(&mut rng, &users)));
+    }
+    if rng.pct(30) {
+        ctx.insert("ext".into(), uid_json("B::Acct", *rng.pick(&["x0", "x1"])));
     }
     if rng.pct(40) {
         let mut ds = vec![];
